@@ -109,6 +109,8 @@ def evaluate(case, out):
         except Exception as e:  # noqa
             out.lib_exception("formats", e)
             return
+        out.expect(len(cs) == len(idx) and all(a is cvrs[i] for a, i in zip(cs, idx)), "sampled-cvrs-are-not-the-records-asked-for",
+                   lambda: ([getattr(a, "id", a) for a in cs][:6], [cvrs[i].id for i in idx][:6]))
         want = sorted(cvrs[i].id for i in idx if cvrs[i].phantom)
         out.expect(sorted(m.id for m in mvr_ph) == want and all(m.phantom for m in mvr_ph), "sampled-phantom-cvr-without-phantom-mvr",
                    lambda: ([m.id for m in mvr_ph], want))
@@ -210,6 +212,16 @@ def evaluate(case, out):
                     am = 0.0 if (m.phantom or (us and not m.has_contest(cid))) else a.assorter.assort(m)
                     o = a.assorter.overstatement(m, phc, use_style=us)
                     if not out.expect(abs(o - (0.5 - am)) <= 1e-12, "phantom-cvr-not-scored-as-non-vote", lambda: (cid, key, i, o, am)):
+                        return
+                if con.audit_type == "ONEAUDIT" and pop:
+                    # phantoms created as a batch of their own (make_phantoms(..., pool=True, tally_pool=label)): the batch holds
+                    # nothing but non-votes, so each of its cards is still scored 1/2
+                    batch = [CVR(id=f"phantom-b-{j}", votes={cid: {}}, phantom=True, pool=True, tally_pool="phantom batch") for j in range(2)]
+                    a.assorter.set_tally_pool_means(cvr_list=cvrs + batch, use_style=us)
+                    m = mvrs[pop[0]]
+                    am = 0.0 if (m.phantom or (us and not m.has_contest(cid))) else a.assorter.assort(m)
+                    o = a.assorter.overstatement(m, batch[0], use_style=us)
+                    if not out.expect(abs(o - (0.5 - am)) <= 1e-12, "phantom-cvr-in-a-batch-of-phantoms-not-scored-as-non-vote", lambda: (cid, key, o, am)):
                         return
             except Exception as e:  # noqa
                 out.lib_exception("overstatement", e)
